@@ -15,29 +15,39 @@ def CallPath.blocks (_ : CallPath) : Bool := true
 /-- **Full statement (does NOT hold — `not_blocking_paths_publish`).** -/
 def BlockingPathsPublish : Prop := ∀ p ∈ callPaths, p.blocks = true → p.publishes = true
 
-/-- The functions whose call of a built-in is NOT inside a safepoint today (class predicate of K16b): callbacks
-of transducers / lazy streams / `call-with-…` helpers (`call_func_or_else*`, `call_function*`, `transduce`),
-`apply`, `call/cc` of a built-in, and the JIT's tail-call / no-arity / boxed helpers. -/
+/-- The functions whose call of a built-in was NOT inside a safepoint while K16b was open (class predicate of K16b):
+callbacks of transducers / lazy streams / `call-with-…` helpers (`call_func_or_else*`, `call_function*`, `transduce`),
+`apply`, `call/cc` of a built-in, and the JIT's tail-call / no-arity / boxed helpers.  The exception list of the
+obligation is `openK16b`, regenerated from the source and KNOWN_FINDINGS.txt: these functions while the finding is open
+and they still have an unpublished arm, nothing once it is `fixed:`. -/
 def knownUnpublished : List String :=
   ["call_function_from_mut_slice", "call_function", "call_func_or_else", "call_func_or_else_two_args",
    "call_func_or_else_many_args", "call_cc", "apply", "handle_global_tail_call_deopt_with_args",
    "handle_global_tail_call_deopt_spilled", "handle_global_function_call_with_args",
    "inner_handle_global_function_call_with_args_no_arity", "transduce"]
 
-/-- Every other call of a built-in publishes the thread: the interpreter's call / tail-call / global-call
-opcodes, `call_primitive_func`, `call_boxed_func`, the JIT's `FuncV` call helper and `call_function_tco`. -/
+/-- **Every call of a plain built-in publishes the thread** — outside the functions excused while K16b is open. -/
 theorem blocking_paths_publish :
-    ∀ p ∈ callPaths, p.blocks = true → p.fn ∉ knownUnpublished → p.publishes = true := by decide
+    ∀ p ∈ callPaths, p.blocks = true → p.fn ∉ openK16b → p.publishes = true := by decide
 
-theorem not_blocking_paths_publish : ¬ BlockingPathsPublish := by
-  intro h
-  have : ∀ p ∈ callPaths, p.publishes = true := fun p hp => h p hp rfl
-  revert this
+/-- **Full strength** once the finding is closed: no exceptions. -/
+theorem blocking_paths_publish_full : openK16b = [] → BlockingPathsPublish := by
+  intro h p hp hb
+  exact blocking_paths_publish p hp hb (by rw [h]; simp)
+
+/-- The excused functions are the ones of the class, and each of them still has an unpublished arm (the list is tight). -/
+theorem open_k16b_tight :
+    (openK16b.all fun n => knownUnpublished.contains n && callPaths.any fun p => p.fn == n && !p.publishes) = true := by
   decide
 
-/-- The list of exceptions is tight: each name still has an unpublished arm. -/
-theorem known_unpublished_tight :
-    ∀ n ∈ knownUnpublished, (callPaths.any fun p => p.fn == n && !p.publishes) = true := by decide
+/-- While some arm does not publish, the full statement is false. -/
+theorem not_blocking_paths_publish (h : (callPaths.all fun p => p.publishes) = false) : ¬ BlockingPathsPublish := by
+  intro hb
+  have : (callPaths.all fun p => p.publishes) = true := by
+    simp only [List.all_eq_true]
+    intro p hp
+    exact hb p hp rfl
+  rw [h] at this; cases this
 
 /-- The extraction is not empty: the dispatch loop's own call paths are there and publish. -/
 theorem callpaths_nonempty :
